@@ -614,3 +614,69 @@ def r09_7(ctx, rr):
             rr.violate(key, "longest_common_prefix decides the order of two byte strings with `%s`: %s" % (show(F, n)[:100], why), F.loc(n))
     if n_ord < 2:
         raise AnchorMissing("longest_common_prefix: expected the byte comparison and the length tie-break, found %d ordering comparisons" % n_ord)
+
+
+@rule("R09.8", props=["C09"], floor=1, title="RearCodedList::index_of_sorted: the in-block scan starts after the block head, so every path that reaches it has already told the probe from the head (an equality outcome that returns the head's index)")
+def r09_8(ctx, rr):
+    """The linear scan decodes the strings *following* the first of the block and returns `block * k + idx + 1`; the
+    head itself is only ever recognised by the search that picks the block (`binary_search_by .. Ok(i) => i * k`).
+    A shortcut into the scan that merely checks `probe >= head` loses the head."""
+    import paths
+    F = ctx.F()
+    b = F.one(r"^dict::rear_coded_list::RearCodedList::<D, P>::index_of_sorted$")
+    stmts = list(b.body.get("stmts", []))
+    cut = None
+    for i, st in enumerate(stmts):
+        if any(x.get("k") == "Loop" for x in walk(st)):
+            cut = i
+            break
+    if cut is None or cut == 0:
+        raise AnchorMissing("index_of_sorted: expected a block selection followed by a scan loop")
+    prefix = {"k": "Block", "stmts": stmts[:cut], "s": b.body.get("s", "")}
+    try:
+        ps = paths.enum_paths(prefix)
+    except paths.Unsupported as e:
+        raise AnchorMissing("index_of_sorted: block selection could not be enumerated (%s)" % e)
+
+    def equality_excluded(ev):
+        for e in ev:
+            if e[0] == "iflet" and e[2] is False:
+                txt = show(F, e[1]["c"])
+                if "Ok(" in txt:
+                    return True     # `if let Ok(i) = <search result> { return .. }` not taken: the search found no equal head
+            if e[0] == "arm":
+                m, a = e[1], e[2]
+                names = [x["pat"].get("name") for x in m["arms"]]
+                # a match on the search result / on an Ordering in which the Ok / Equal arm leaves the function
+                if a["pat"].get("name") in ("Err", "Less", "Greater") and any(nm in ("Ok", "Equal") for nm in names):
+                    other = [x for x in m["arms"] if x["pat"].get("name") in ("Ok", "Equal")]
+                    if other and any(y.get("k") == "Ret" for y in walk(other[0]["body"])):
+                        return True
+            if e[0] == "cond":
+                txt = show(F, e[1])
+                if "Equal" in txt and ((e[2] is False and "==" in txt) or (e[2] is True and "!=" in txt)):
+                    return True
+            if e[0] in ("let", "expr"):
+                node = e[1] if e[0] == "expr" else e[1].get("init", {})
+                # `let i = search?` / `.. .err()?`-style early exits on equality
+                if isinstance(node, dict) and any(x.get("k") == "Match" and x.get("src") == "TryDesugar" for x in walk(node)):
+                    return True
+        return False
+    n = 0
+    for ev in ps:
+        if _is_return_path(ev):
+            continue
+        n += 1
+        rr.instances += 1
+        ok = equality_excluded(ev)
+        key = "index_of_sorted:head-recognised-before-scan"
+        rr.ob(ok, key=key, sample={"tests on the path": [("%s%s" % ("" if e[2] else "!", show(F, e[1])[:60])) for e in ev if e[0] == "cond"][:6]})
+        if not ok:
+            conds = [("%s%s" % ("" if e[2] else "!", show(F, e[1])[:60])) for e in ev if e[0] == "cond"]
+            rr.violate(key, "index_of_sorted reaches the scan of the strings that follow the block head along a path (%s) on which the probe was never found different from the head: a probe equal to the first string of the block is not found (the scan returns block * k + idx + 1 only)" % ("; ".join(conds) or "no test"), b.span)
+    if n == 0:
+        raise AnchorMissing("index_of_sorted: no path reaches the scan")
+
+
+def _is_return_path(ev):
+    return any(e[0] == "explicit-return" for e in ev)
